@@ -23,7 +23,9 @@ import (
 // C03: mode composition truth table on the real caddy module.
 
 var c03Modes = []string{"", "prefer_ocsp", "prefer_crl", "ocsp_only", "crl_only", "disabled"}
-var c03OCSP = []string{"no-aia", "good", "revoked", "unavailable", "unusable-answer"}
+// "revoked-by-second-responder-after-a-slow-first": the certificate names two responders; the first takes 90 seconds (by
+// the validator's clock) and then sends an error page, the second says revoked at once
+var c03OCSP = []string{"no-aia", "good", "revoked", "unavailable", "unusable-answer", "revoked-by-second-responder-after-a-slow-first"}
 var c03CRL = []string{"none-known", "listed", "not-listed", "cdp-unavailable", "cdp-unavailable+listed-in-configured-file", "listed-in-configured-url"}
 var c03Chains = []string{"leaf-ca", "leaf-sub-root", "two-chains"}
 
@@ -85,6 +87,9 @@ func (c *c03Cast) leaf(cell c03Cell) *world.Ident {
 	if cell.OCSP != "no-aia" {
 		ocspURLs = []string{c03OCSPURL}
 	}
+	if cell.OCSP == "revoked-by-second-responder-after-a-slow-first" {
+		ocspURLs = []string{c03OCSPURL + "-slow", c03OCSPURL}
+	}
 	if cell.CRL != "none-known" && cell.CRL != "listed-in-configured-url" {
 		cdp = []string{c03CRLURL}
 	}
@@ -125,10 +130,13 @@ func (c *c03Cast) run(cell c03Cell) (o c03Obs) {
 		leaf := c.leaf(cell)
 		iss := c.issuer(cell.Chain)
 		switch cell.OCSP {
-		case "good", "revoked":
+		case "good", "revoked", "revoked-by-second-responder-after-a-slow-first":
 			st := xocsp.Good
-			if cell.OCSP == "revoked" {
+			if cell.OCSP != "good" {
 				st = xocsp.Revoked
+			}
+			if cell.OCSP == "revoked-by-second-responder-after-a-slow-first" {
+				net.Routes[c03OCSPURL+"-slow"] = &world.Behaviour{Label: "slow-error-page", Delay: 90 * time.Second, Status: 504, Body: []byte("<html><body>504 gateway timeout</body></html>")}
 			}
 			net.Serve(c03OCSPURL, cell.OCSP, world.BuildOCSP(world.OCSPAnswer{Status: st, Serial: leaf.Cert.SerialNumber, Issuer: iss, Signer: iss, ThisUpdate: vsched.Epoch.Add(-time.Minute)}))
 		case "unusable-answer":
@@ -249,7 +257,7 @@ func c03Expect(cell c03Cell) (reject bool, ocspOn, crlOn bool) {
 	}
 	ocspOn = mode == "prefer_ocsp" || mode == "prefer_crl" || mode == "ocsp_only"
 	crlOn = mode == "prefer_ocsp" || mode == "prefer_crl" || mode == "crl_only"
-	ocspBad := cell.OCSP == "revoked" || ((cell.OCSP == "unavailable" || cell.OCSP == "unusable-answer") && cell.AIAStrict)
+	ocspBad := cell.OCSP == "revoked" || cell.OCSP == "revoked-by-second-responder-after-a-slow-first" || ((cell.OCSP == "unavailable" || cell.OCSP == "unusable-answer") && cell.AIAStrict)
 	crlBad := cell.CRL == "listed" || cell.CRL == "cdp-unavailable+listed-in-configured-file" || cell.CRL == "listed-in-configured-url" || (cell.CRL == "cdp-unavailable" && cell.CDPStrict)
 	reject = (ocspOn && ocspBad) || (crlOn && crlBad)
 	return
@@ -270,7 +278,7 @@ func c03ChainOrigins() [][2]string {
 func RunC03(tier string, args []string) int {
 	chk := fw.NewCheck("C03", tier, "model_checking")
 	chk.Assumptions = []string{
-		"finite truth table enumerated completely: mode(6) x OCSP outcome(5: no AIA, good, revoked, unreachable, reachable but unusable answer) x aia_strict(2) x CRL outcome(6: none known, listed, not listed, CDP unavailable, CDP unavailable + listed in a configured file, listed in a configured crl_url) x cdp_strict(2) x backend(2) x (chain shape(3) with the configuration structs filled in directly + the first chain shape with the same settings loaded from Caddyfile text in two option orders) = 7200 cells; each cell = fresh Provision -> one VerifyClientCertificate -> Cleanup on the real caddy module",
+		"finite truth table enumerated completely: mode(6) x OCSP outcome(6: no AIA, good, revoked, unreachable, reachable but unusable answer, revoked by the second responder after a first one which takes 90 s) x aia_strict(2) x CRL outcome(6: none known, listed, not listed, CDP unavailable, CDP unavailable + listed in a configured file, listed in a configured crl_url) x cdp_strict(2) x backend(2) x (chain shape(3) with the configuration structs filled in directly + the first chain shape with the same settings loaded from Caddyfile text in two option orders) = 8640 cells; each cell = fresh Provision -> one VerifyClientCertificate -> Cleanup on the real caddy module",
 		"oracle: reject <=> (OCSP enabled and (revoked or, under aia_strict, no authentic answer)) or (CRL enabled and (listed or strict-unavailable)); side-effect monitors on the scripted origin and the work_dir",
 		"empty verifiedChains are not judged (the TLS stack never passes them in require-and-verify mode)",
 	}
